@@ -46,6 +46,8 @@ def apply(patch):
 
 
 def undo():
+    # (a --3way apply stages its result: reset the index too, or a later `checkout -- .` restores the mutated file)
+    sh(["git", "-C", WT, "reset", "-q", "--hard"])
     sh(["git", "-C", WT, "checkout", "--", "."])
     sh(["git", "-C", WT, "clean", "-fdq", "-e", "__pycache__"])
 
